@@ -49,7 +49,7 @@ def main() -> int:
         if want and want != have and want == "3.11" and os.path.exists(PY311):
             import subprocess
 
-            env = dict(os.environ, PYTHONPATH="/repo:" + ROOT, VERIF_LEG="311")
+            env = dict(os.environ, PYTHONPATH=os.environ.get("VERIF_REPO", "/repo") + ":" + ROOT, VERIF_LEG="311")
             return subprocess.run([PY311, "-m", "vlib.main", pid, "--replay", args.replay], cwd=ROOT, env=env).returncode
         out = mod.replay(rec["case"])
         print(json.dumps(out, indent=1, default=repr))
@@ -66,7 +66,7 @@ def main() -> int:
             import subprocess
             import tempfile
 
-            env = dict(os.environ, PYTHONPATH="/repo:" + ROOT, VERIF_LEG="311", VERIF_TIER=args.tier,
+            env = dict(os.environ, PYTHONPATH=os.environ.get("VERIF_REPO", "/repo") + ":" + ROOT, VERIF_LEG="311", VERIF_TIER=args.tier,
                        VERIF_CORPUS_STRIDE="3" if args.tier == "quick" else "1", VERIF_PROCS="8")
             out_f = tempfile.TemporaryFile(mode="w+")
             err_f = tempfile.TemporaryFile(mode="w+")
